@@ -6,13 +6,18 @@
   Code k mapped; use-after-free is an explicit `Fault`).
   The declaration-level mechanism — field order of `ModuleData`, `TypedFunc`
   owning `self.inner.clone()`, what `codegen` clones into the module, who calls
-  `free_memory` — is `Gen.Lifetime.facts`, regenerated from src/codegen/mod.rs,
+  `free_memory`, what the closure made by `TypedFunc::into_func` captures, that a
+  `TestCase` stores the handle of its test function, and
+  which struct owns every piece of data whose address the code generator bakes
+  into the machine code — is `Gen.Lifetime.facts`, regenerated from src/codegen/mod.rs,
   src/pipeline.rs and src/runtime/func.rs on every run.  Every theorem below is
   about `run facts ops` for ALL operation lists `ops` (induction over the list,
   Lemmas/Lifetime*.lean) and is discharged through `facts_good : goodB facts`,
   a `decide` on the generated facts: a handle that stops owning the `Arc`, a
-  JIT-first field order, a constant that is no longer cloned, or a second
-  `free_memory` site makes `facts_good` — hence every theorem — fail to check.
+  JIT-first field order, a constant that is no longer cloned, a second
+  `free_memory` site, an `into_func` closure that captures only the function
+  pointer, or code-referenced data owned by the package instead of the shared
+  `ModuleData` / the JIT module makes `facts_good` — hence every theorem — fail to check.
 -/
 import RotoV.Model.Lifetime
 import RotoV.Lemmas.Lifetime
@@ -27,9 +32,12 @@ theorem facts_good : goodB facts = true := by decide
 
 theorem inv (ops : List Op) : Inv (run facts ops) := inv_run (good_of_goodB facts_good) ops
 
-/-- **T1.** After any history, every live handle's module, code, script
-    constants and (if its script uses them) registered constant and closure
-    have never been released, a call through it returns what it returned when
+/-- **T1.** After any history, every live handle — also one that was turned
+    into a closure by `into_func`, and the one inside a `TestCase` handed out by
+    `get_tests` — has its module, code, script constants and
+    (if its script uses them) registered constant and closure never released and
+    every piece of out-of-line data its code refers to still there, a call
+    through it returns what it returned when
     the handle was created — the script's value — and no use-after-free or
     double free has happened anywhere. -/
 theorem live_handle_callable (ops : List Op) (i : Nat) (h : Handle)
@@ -40,6 +48,7 @@ theorem live_handle_callable (ops : List Op) (i : Nat) (h : Handle)
       ∧ (∀ c, s.relCount (.scriptConst h.k c) = 0)
       ∧ ((s.info h.k).useConst = true → s.relCount (.regConst (s.info h.k).rt) = 0)
       ∧ ((s.info h.k).useClos = true → s.relCount (.closure (s.info h.k).rt) = 0)
+      ∧ dataAlive s h.k = true
       ∧ callHandle s i = some h.expect
       ∧ h.expect = .ok (s.info h.k).value
       ∧ s.faults = [] := by
@@ -50,11 +59,11 @@ theorem live_handle_callable (ops : List Op) (i : Nat) (h : Handle)
   have hk := hI.strong_pos_of_handle hmem
   have hne : ¬ s.strong h.k = 0 := by omega
   have hex := hc.expect_ok h hmem
-  refine ⟨hk, hc.mem_alive hk, ?_, ?_, hc.sc_alive hk, ?_, ?_, ?_, hex, hc.no_fault⟩
+  refine ⟨hk, hc.mem_alive hk, ?_, ?_, hc.sc_alive hk, ?_, ?_, dataAlive_of_mapped hc hk, ?_, hex, hc.no_fault⟩
   · rw [hc.mapped_eq]; simpa using hk
   · rw [hc.code_rel]; simp [hne]
   · intro hu; exact hc.const_alive hk ((hc.uses h.k).1 hu)
-  · intro hu; exact hc.clos_alive hk ((hc.uses h.k).2 hu)
+  · intro hu; exact hc.clos_alive hk ((hc.uses h.k).2.1 hu)
   · show (s.hs[i]?).map (fun h => callRes s h.k) = some h.expect
     rw [hi, Option.map_some, callRes_ok hc hk, hex]
 
@@ -124,14 +133,47 @@ theorem independent (ops : List Op) (op : Op) (k j : Nat)
     exact obs_eq_of_frame hI (step_inv hG hI op hv) j hp hh hinfo hcomp
   · rfl
 
+/-- **T5.** `into_func` hands everything the handle owned to the closure: after
+    any history, turning live handle i into a closure releases nothing, changes
+    no reference count and no fault log, leaves every other handle as it was, and
+    the closure sits where the handle was, for the same version, owning the
+    `Arc`, returning what the handle returned.  (Fails to check when the generated
+    capture fact says the closure captures only the function pointer.) -/
+theorem into_func_keeps (ops : List Op) (i : Nat) (h : Handle)
+    (hi : (run facts ops).hs[i]? = some h) (hf : h.isFn = false) :
+    let s := run facts ops
+    let s' := stepV facts s (.intoFunc i)
+    s'.released = s.released ∧ s'.strong = s.strong ∧ s'.faults = s.faults ∧ s'.pkgs = s.pkgs
+      ∧ s'.hs = s.hs.set i { h with isFn := true }
+      ∧ s'.hs[i]? = some { h with isFn := true }
+      ∧ callHandle s' i = callHandle s i := by
+  intro s s'
+  have hi' : s.hs[i]? = some h := hi
+  have hv : valid s (.intoFunc i) = true := by
+    show (s.hs[i]?).any (fun h => !h.isFn) = true
+    rw [hi']; simp [hf]
+  have hcl : facts.closureKeepsArc = true := (good_of_goodB facts_good).closure
+  have hs' : s' = { s with hs := s.hs.set i { h with isFn := true } } := by
+    show stepV facts s (.intoFunc i) = _
+    simp only [stepV, hv, if_true, step, hcl]
+    rw [hi']
+  obtain ⟨hlt, _⟩ := List.getElem?_eq_some_iff.1 hi'
+  have hget : (s.hs.set i { h with isFn := true })[i]? = some { h with isFn := true } := by
+    rw [List.getElem?_set_self hlt]
+  refine ⟨by rw [hs'], by rw [hs'], by rw [hs'], by rw [hs'], by rw [hs'], by rw [hs']; exact hget, ?_⟩
+  rw [hs']
+  show ((s.hs.set i { h with isFn := true })[i]?).map _ = (s.hs[i]?).map _
+  rw [hget, hi']
+  rfl
+
 /-! ### non-vacuity -/
 
 /-- a hot-reload history: runtime with constant and closure, version 1 compiled
     and a handle taken, version 2 compiled, then runtime, both packages dropped:
     the handle of version 1 is still there and callable -/
 def reload : List Op :=
-  [.buildRuntime 0, .registerConst 0, .registerClosure 0, .compile 0 1 2 true true 1240, .getHandle 1,
-   .compile 0 2 1 true true 2238, .dropRuntime 0, .dropPackage 1, .dropPackage 2]
+  [.buildRuntime 0, .registerConst 0, .registerClosure 0, .compile 0 1 2 true true true 1240, .getHandle 1,
+   .compile 0 2 1 true true true 2238, .dropRuntime 0, .dropPackage 1, .dropPackage 2]
 
 example : (run facts reload).hs.length = 1 ∧ callHandle (run facts reload) 0 = some (.ok 1240)
     ∧ (run facts reload).relCount (.code 2) = 1 ∧ (run facts reload).relCount (.scriptConst 2 0) = 1
@@ -154,8 +196,51 @@ example : (run { facts with moduleFields := [.jit, .constants, .rotoConstants, .
 example : callHandle (run { facts with handleHoldsArc := false } reload) 0 = some .uaf := by
   decide
 
+/-- a handle turned into a closure by `into_func` survives its package and the runtime like any handle … -/
+def reloadFn : List Op :=
+  [.buildRuntime 0, .registerConst 0, .registerClosure 0, .compile 0 1 2 true true true 1240, .getHandle 1,
+   .intoFunc 0, .dropPackage 1, .dropRuntime 0]
+
+example : (run facts reloadFn).hs.map (·.isFn) = [true] ∧ callHandle (run facts reloadFn) 0 = some (.ok 1240)
+    ∧ (run facts reloadFn).relCount (.code 1) = 0 ∧ (run facts reloadFn).relCount (.closure 0) = 0
+    ∧ (run facts (reloadFn ++ [.cloneHandle 0])).hs.length = 1
+    ∧ (run facts (reloadFn ++ [.dropHandle 0])).relCount (.code 1) = 1
+    ∧ (run facts (reloadFn ++ [.dropHandle 0])).relCount (.closure 0) = 1 := by
+  decide
+
+/-- a `TestCase` keeps its module alive like a handle, and releases it when dropped -/
+example : let h := [Op.buildRuntime 0, .registerClosure 0, .compile 0 1 1 false true true 77, .getTest 1,
+                    .dropPackage 1, .dropRuntime 0]
+    callHandle (run facts h) 0 = some (.ok 77) ∧ (run facts h).relCount (.code 1) = 0
+      ∧ (run facts h).relCount (.closure 0) = 0
+      ∧ (run facts (h ++ [.dropHandle 0])).relCount (.code 1) = 1
+      ∧ (run facts (h ++ [.dropHandle 0])).relCount (.closure 0) = 1
+      ∧ callHandle (run { facts with testHoldsHandle := false } h) 0 = some .uaf := by
+  decide
+
+/-- T5's hypotheses are met by a freshly obtained handle -/
+example : ∃ h, (run facts (reloadFn.take 5)).hs[0]? = some h ∧ h.isFn = false :=
+  ⟨{ k := 1, holds := true, expect := .ok 1240 }, rfl, rfl⟩
+
+/-- … and T1 has teeth there: a closure that captures only the function pointer lets the module go when
+    `into_func` returns; the package drop then frees the code under the closure -/
+example : callHandle (run { facts with closureKeepsArc := false } reloadFn) 0 = some .uaf
+    ∧ (run { facts with closureKeepsArc := false } reloadFn).relCount (.closure 0) = 1 := by
+  decide
+
+/-- T1 has teeth for code-referenced data: literal bytes owned by the package die with it while the handle
+    lives (the call's result depended on them) -/
+example : callHandle (run { facts with dataHolders := [.jit, .package] } reload) 0 = some .uaf
+    ∧ callHandle (run { facts with dataHolders := [.jit, .package] } (reload.take 7)) 0 = some (.ok 1240) := by
+  decide
+
+/-- fields of plain data in `ModuleData` (say, interned literal bytes kept where handles hold them) are
+    admissible anywhere in the declaration order, and data held there is fine -/
+example : goodB { facts with moduleFields := .plain :: facts.moduleFields ++ [.plain]
+                             dataHolders := .moduleData :: facts.dataHolders } = true := by decide
+
 /-- the mapped-code hypothesis of T3 is met by every freshly compiled module -/
-example : (run facts [.buildRuntime 0, .compile 0 1 1 false false 7]).mapped 1 = true := by decide
+example : (run facts [.buildRuntime 0, .compile 0 1 1 false false false 7]).mapped 1 = true := by decide
 
 /-- T4 is not vacuous: with a live handle of version 1, dropping the package of
     version 2 is an operation on 2 ≠ 1, version 1 has a callable handle, and version 2's own
